@@ -586,6 +586,16 @@ def srvLine (st : SrvSt) (ts : List Tok) : SrvSt :=
           else st
         | _, _ => bad st
       | _ => bad st
+    else if c = "srv.inject" then
+      -- the server was seeded with an election id before any session existed: the highest id it
+      -- has learnt, with nobody primary
+      let st := bump st
+      match args with
+      | [e] =>
+        match elecOf e with
+        | some (some id) => { st with srv := { st.srv with curElec := some id, curMaster := none }, annMax := some id, annMaster := none }.covr "srv.inject"
+        | _ => bad st
+      | _ => bad st
     else if c = "srv.addni" then
       -- Server.AddNetworkInstance on the running server: a RIB step (`Rib.addNI`), nothing else
       let st := bump st
